@@ -27,6 +27,15 @@ def mk(lens, base=97, att0=1, uniform=False):
     return FmtStr(*chunks)
 
 
+def mk_twins(n, l, same_object=False, att=1):
+    """FmtStr of n runs that compare EQUAL (same text, same attributes) - separate Chunk objects, or the very same object n times
+    (what f * n builds): code that finds a run by equality or identity instead of by position goes wrong on these"""
+    if same_object:
+        c = Chunk("ab"[:l], ATT_POOL[att])
+        return FmtStr(*[c] * n)
+    return FmtStr(*[Chunk("ab"[:l], dict(ATT_POOL[att])) for _ in range(n)])
+
+
 def layouts(max_runs=3, max_len=2):
     for n in range(0, max_runs + 1):
         for lens in itertools.product(range(0, max_len + 1), repeat=n):
